@@ -141,7 +141,8 @@ def run(ctx):
             tname = "t%d" % i
         extreme = rng.random() < 0.6
         if extreme:
-            m = random_tree_mol(rng, rng.choice([2, 4, 8, 14]), p_ring=0.2, p_bracket=0, p_chiral=0, p_stereo=0.1, table={"?": 3})
+            m = random_tree_mol(rng, rng.choice([1, 1, 2, 4, 8, 14]), p_ring=0.2, p_bracket=0, p_chiral=0, p_stereo=0.1, table={"?": 3},
+                                ncomp=rng.choice([1, 1, 1, 2, 3]))
             dress(m, rng)
             ctx.count("extreme_atoms", sum(1 for a in m.atoms if a.hcount is not None))
         else:
